@@ -131,9 +131,19 @@ def build(prop, o, workdir):
     log += " ".join(cmd) + "\n" + out
     if rc != 0:
         return None, log
+    # static inline functions that occur in several TUs are renamed fn$link1, fn$link2, ... by the linker: apply loop
+    # bounds to every copy
+    rc, out, _ = sh(["goto-instrument", "--show-loops", gb], timeout=120)
+    allloops = re.findall(r"^Loop (\S+):", out, re.M)
+    def expand(spec):
+        base = spec.split(":")[0]; rest = spec[len(base):]
+        fn, idx = base.rsplit(".", 1)
+        return [l + rest for l in allloops if l == base or (l.startswith(fn + "$link") and l.endswith("." + idx))] or [spec]
+    o._unwindset_expanded = [x for sp in o.unwindset for x in expand(sp)]
     if o.cut_loops:
         gb2 = os.path.join(workdir, o.name + ".cut.gb")
-        cmd = ["goto-instrument", "--unwindset", ",".join("%s:2" % l for l in o.cut_loops), "--no-unwinding-assertions", gb, gb2]
+        cuts = [x for sp in o.cut_loops for x in expand(sp)]
+        cmd = ["goto-instrument", "--unwindset", ",".join("%s:2" % l for l in cuts), "--no-unwinding-assertions", gb, gb2]
         rc, out, _ = sh(cmd, timeout=300)
         log += " ".join(cmd) + "\n" + out[-2000:]
         if rc != 0:
@@ -153,8 +163,9 @@ def cbmc_cmd(o, gb, extra=()):
     cmd += std
     if o.unwind is not None:
         cmd += ["--unwind", str(o.unwind)]
-    if o.unwindset:
-        cmd += ["--unwindset", ",".join(o.unwindset)]
+    uws = getattr(o, "_unwindset_expanded", None) or o.unwindset
+    if uws:
+        cmd += ["--unwindset", ",".join(uws)]
     if o.object_bits:
         cmd += ["--object-bits", str(o.object_bits)]
     if o.backend == "cadical":
